@@ -3,8 +3,8 @@ EXTENDS GenExec
 \* every kind alone, every pair, and a few larger sets incl. all kinds at once
 Singles == {{k} : k \in AllKinds}
 Pairs   == {{a, b} : a \in AllKinds, b \in AllKinds}
-Big     == {AllKinds, AllKinds \ {"arg"}, ErrKinds \cup {"field", "nest"}, {"convE", "nestE", "nestE2", "mapE", "getter", "str"},
-            {"slcopy", "slloop", "slcast", "sltags", "slptr", "slstruct", "slnest", "ptr"}, {"field", "cast", "arg", "lit", "skip", "nomatch"}}
+Big     == {AllKinds, AllKinds \ {"arg", "argnest"}, ErrKinds \cup {"field", "nest"}, {"convE", "nestE", "nestE2", "mapE", "getter", "str"},
+            {"slcopy", "slloop", "slcast", "sltags", "slget", "slptr", "slstruct", "slnest", "ptr"}, {"field", "cast", "arg", "argnest", "lit", "skip", "nomatch", "npath"}}
 MCKindSets == Singles \cup Pairs \cup Big
 MCKindSetsQ == Singles \cup Big \cup {{a, b} : a \in ErrKinds, b \in AllKinds}
 =============================================================================
